@@ -42,11 +42,13 @@ type Workload struct {
 	Sync    bool      `json:"sync_writer"`
 	Toggle  bool      `json:"togglers"`
 	Console bool      `json:"console_writer,omitempty"` // a ConsoleWriter sits between the logger and the destination
+	ConsNew bool      `json:"console_new,omitempty"`    // ... built by NewConsoleWriter with FieldsOrder and FieldsExclude (fresh per run: every goroutine's first Write races the others')
 	G       [][]Chain `json:"goroutines"`
 }
 
 type checkWriter struct {
 	console  bool
+	consNew  bool
 	mode     string
 	mu       sync.Mutex
 	got      [][]byte
@@ -109,6 +111,13 @@ func loggers(w *checkWriter, syncW bool) []*zerolog.Logger {
 	if w.console {
 		// ConsoleWriter renders from a pooled buffer and must hand its Out one complete line per event
 		dst = zerolog.ConsoleWriter{Out: w, NoColor: true, TimeLocation: time.UTC}
+		if w.consNew {
+			dst = zerolog.NewConsoleWriter(func(c *zerolog.ConsoleWriter) {
+				c.Out, c.NoColor, c.TimeLocation = w, true, time.UTC
+				c.FieldsOrder = []string{"svc", "hooked", "deep", "k1", "a"}
+				c.FieldsExclude = []string{"shard"}
+			})
+		}
 	}
 	if syncW {
 		out = zerolog.New(zerolog.SyncWriter(dst))
@@ -140,7 +149,7 @@ func run(wl *Workload) (msg string, nontrivial bool) {
 	defer restore()
 	// expected: each chain alone
 	var want []string
-	solo := &checkWriter{mode: "fast", console: wl.Console}
+	solo := &checkWriter{mode: "fast", console: wl.Console, consNew: wl.ConsNew}
 	sl := loggers(solo, false)
 	oldGlobal := zlog.Logger
 	defer func() { zlog.Logger = oldGlobal }()
@@ -165,7 +174,7 @@ func run(wl *Workload) (msg string, nontrivial bool) {
 		}
 	}
 	// concurrent
-	w := &checkWriter{mode: wl.Writer, gate: make(chan struct{}), console: wl.Console}
+	w := &checkWriter{mode: wl.Writer, gate: make(chan struct{}), console: wl.Console, consNew: wl.ConsNew}
 	ls := loggers(w, wl.Sync)
 	zlog.Logger = *ls[3]
 	var wg sync.WaitGroup
@@ -261,6 +270,7 @@ func genWorkload(rt *rapid.T, maxG int) *Workload {
 	g.Settings()
 	wl := &Workload{Writer: rapid.SampledFrom([]string{"fast", "gosched", "sleep", "gate"}).Draw(rt, "writer"), Sync: rapid.IntRange(0, 2).Draw(rt, "sync") == 0, Toggle: rapid.Bool().Draw(rt, "toggle"),
 		Console: rapid.IntRange(0, 3).Draw(rt, "console") == 0}
+	wl.ConsNew = wl.Console && rapid.Bool().Draw(rt, "consnew")
 	ng := rapid.IntRange(2, maxG).Draw(rt, "G")
 	for i := 0; i < ng; i++ {
 		n := rapid.IntRange(1, 6).Draw(rt, "n")
